@@ -1,10 +1,12 @@
 from checks.common import Build, Job
+from checks import cross
 
 PROP = "C14"
 BUILDS = [Build("po_spec", "harness/c14_poll.c", flavor="spec"),
           Build("po_spec_wb", "harness/c14_poll.c", flavor="spec", whitebox=True),
           Build("po_memb", "harness/c14_poll.c", flavor="memb"),
           Build("po_bp", "harness/c14_poll.c", flavor="bp")]
+BUILDS = BUILDS + cross.gp_builds() + cross.callrcu_builds() + cross.fork_builds()   # cross-property core jobs (checks/cross.py)
 RULE = ("every schedule (preemption / TSO-delay / futex-fault budget) of scenarios where 1-2 threads obtain poll handles at arbitrary "
         "points relative to in-flight grace periods, readers and the call_rcu helper, on the real urcu-poll-impl.h + "
         "urcu-call-rcu-impl.h over the specification flavor (and real memb/bp, shallower); oracles: litmus + interval "
@@ -41,6 +43,10 @@ def jobs(tier):
         p = {"qs_attempts": 1, "wait_attempts": 1}
         J.append(Job(b, "one", "1,0,0,0" if q else "2,0,0,0", p, env, workers=8))
         J.append(Job(b, "inflight", "1,0,0,0,0" if q else "1,0,0,0", p, env, workers=8))
+    # the components this property's guarantee is built on, on the real code (checks/cross.py)
+    J += cross.gp_core(tier)
+    J += cross.callrcu_core(tier)
+    J += cross.fork_core(tier)
     return J
 
 
